@@ -1038,9 +1038,23 @@ class Translator:
                     back_srcs.setdefault(s_, []).append(b)
         inst.latch = {}
         latch_after = {}
+        preds = {}
+        for b in order:
+            for s_ in self._succs(b):
+                if s_ in pos:
+                    preds.setdefault(s_, []).append(b)
         for h, srcs in back_srcs.items():
-            if len(srcs) > 1:
-                last = max(srcs, key=lambda x: pos[x])
+            # natural loop of h: everything that reaches a back-edge source without passing through h.  The latch goes after the
+            # LAST block of the loop in emission order, so that loops nest properly (an inner loop's back edge never spans an outer latch)
+            body, work = {h}, list(srcs)
+            while work:
+                x = work.pop()
+                if x in body:
+                    continue
+                body.add(x)
+                work.extend(preds.get(x, []))
+            last = max(body, key=lambda x: pos[x])
+            if len(srcs) > 1 or pos[last] > max(pos[x] for x in srcs):
                 inst.latch[h] = f"{inst.label(h)}_latch"
                 latch_after.setdefault(last, []).append(h)
         if 0 in counters:
@@ -1059,7 +1073,7 @@ class Translator:
                 # environment assumption (listed in evidence): this call site is never reached (e.g. tracing events with logging off)
                 self.models_used["dead:" + self.canon_key(strip_generics(self.normalize_callee(blk.term.func)))[:80]] = 1
                 self.emit("__CPROVER_assume(0); /* dead call site by environment assumption */")
-                for h in latch_after.get(b, []):
+                for h in sorted(latch_after.get(b, []), key=lambda x: -pos[x]):
                     self.cur.label(inst.latch[h])
                     self.emit(f"goto {inst.label(h)};")
                 continue
@@ -1080,7 +1094,7 @@ class Translator:
                 if "\n    in " in str(e):
                     raise
                 raise TranslateError(f"{e}\n    in {key} bb{b}: {blk.term.raw}") from None
-            for h in latch_after.get(b, []):
+            for h in sorted(latch_after.get(b, []), key=lambda x: -pos[x]):
                 self.cur.label(inst.latch[h])
                 self.emit(f"goto {inst.label(h)};")
         self.cur.label(inst.ret_label)
